@@ -64,6 +64,21 @@ Example C04_cache_example :
   memo st <> [].
 Proof. vm_compute. repeat split; discriminate. Qed.
 
+(* a reduce nested in an assignment (`c::+/a`: the assignment is never compiled, its operand node +/a is, and
+   keeps its code), first run on a non-empty list and then on the empty list: with the re-check, which refuses empty
+   arrays at call time, the answer is the interpreter's []; without it the memoised np.add.reduce returns its identity 0
+   (the seeded change C04-3 moved that test to compile time) *)
+Definition red_parse (t : text) (m : module) : expr * module :=
+  (if t =? 1 then EDef 10 (ELit (VList [1; 2; 3])) else
+   if t =? 2 then EDef 11 (ERed (EVar 10)) else
+   EDef 10 (ELit (VList [])), m).
+
+Example C04_reduce_example :
+  fst (run_cached true true true red_parse true (state_after true true true red_parse true (fresh []) [1; 2; 3]) 2) = Ok (VList []) /\
+  fst (run_cached false true true red_parse true (state_after false true true red_parse true (fresh []) [1; 2; 3]) 2) = Ok (VInt 0) /\
+  fst (run_cached true true true red_parse true (state_after true true true red_parse true (fresh []) [1]) 2) = Ok (VInt 6).
+Proof. vm_compute. repeat split; reflexivity. Qed.
+
 (* module switches.  Text 1 = `.module(:m)` (switches to module 7 while being parsed), text 3 =
    `.module(0)`, text 2 = `t::1`, which the parser reads as t`m::1 (name 20) inside the module and as
    t::1 (name 10) outside. *)
@@ -119,6 +134,17 @@ Proof.
            buffers_immutable (eq_refl : amend_clones_first = true)).
 Qed.
 Print Assumptions C04_buffers_immutable.
+
+(* T4.views, full strength — values behave as immutable: after ANY statement sequence (literals,
+   drop / take / reverse views, views of views, amends of views, aliases) EVERY variable holds
+   exactly the value that the same program computes over a store of immutable lists. *)
+Theorem C04_values_are_immutable : forall p k,
+  value_of (exec_all amend_clones_first (mk_hstate [] []) p) k = pget k (pure_exec_all [] p).
+Proof.
+  exact (eq_ind_r (fun f => forall p k, value_of (exec_all f (mk_hstate [] []) p) k = pget k (pure_exec_all [] p))
+           heap_is_immutable_store (eq_refl : amend_clones_first = true)).
+Qed.
+Print Assumptions C04_values_are_immutable.
 
 (* an amend that writes through its operand is observable through every view *)
 Theorem C04_views_refuted_without_clone :
